@@ -9,8 +9,9 @@ import (
 type ctxKey struct{}
 
 type instr struct {
-	status int
-	panic  bool
+	status  int
+	panic   bool
+	rewrite int // what the handler does to the source-identifying header before it returns
 }
 
 func newRequest(tag any, src string) *http.Request {
